@@ -1,6 +1,7 @@
 import TinsModel.Ownership.Spec
 import Driver.Util
 import Driver.C12Opt
+import TinsModel.Gen.Members
 /- line-protocol driver for property C12 (ownership): model mode prints the forest of the pointer model exactly as
    harness/c12_ownership.cpp prints the forest of the real objects; spec mode checks the forest the implementation
    printed against the chain-level specification. -/
@@ -104,6 +105,51 @@ def showForest (status : String) (m : MState) : MState × String :=
     | some (k, ns) => s!"{k}[{showChain ns}]") ""
   ({ m with ids := now, nextId := next }, s!"{status} live={h.live} ser=11{body}")
 
+/-! ### copyall / copyclasses: what the generated member table (Gen/Members.lean) predicts -/
+
+open Tins.Own.Members in
+def concreteRows : List ClassRow := Tins.Gen.Members.classes.filter (fun r => r.isPdu && r.concrete)
+
+open Tins.Own.Members in
+def copyable : Special → Bool
+  | .deleted | .privateUndefined | .unparsed => false
+  | _ => true
+
+/-- every copy / move / clone of an object whose class has only deep-value members (plus the modelled pointers) yields an
+    equal, independent object of the same class; nothing stays alive -/
+def copyAllExpected (cls : String) : String := s!"ok {cls} cc=1 cl=1 ti=1 ca=1 mc=1 ma=1 ind=1 live=0"
+
+def copyModel (ws : List String) : Option String :=
+  match ws with
+  | ["copyclasses"] =>
+    some (joinWith " " (concreteRows.map (fun r =>
+      s!"{r.name}:a{if r.isAbstract then 1 else 0}c{if copyable r.copyCtor then 1 else 0}s{if copyable r.copyAssign then 1 else 0}")))
+  | ["copyall", cls, _, mode] =>
+    if (mode == "0" || mode == "1" || mode == "2") && concreteRows.any (fun r => r.name == cls) then some (copyAllExpected cls)
+    else some "bad-op"
+  | "copyall" :: _ => some "bad-op"
+  | _ => none
+
+/-- oracle clause per check of a `copyall` line -/
+def copySpec (opWs : List String) (out : String) : String :=
+  match opWs with
+  | ["copyclasses"] => "ok"
+  | _ =>
+    if out == "SKIP" || out.startsWith "FAULT" then "unspecified" else
+    if out == "bad-op" then "unspecified" else
+    let ws := words out
+    let flag (k : String) : Bool := ws.contains (k ++ "=1")
+    if ws.headD "" != "ok" then "violates unparsable-output"
+    else if !flag "ti" then "violates clone-same-dynamic-type (the clone is an object of another class: slicing)"
+    else if !flag "cc" then "violates copy-ctor-serialization-equal"
+    else if !flag "cl" then "violates clone-serialization-equal"
+    else if !flag "ca" then "violates copy-assign-serialization-equal"
+    else if !flag "mc" then "violates move-ctor-transfers-value"
+    else if !flag "ma" then "violates move-assign-transfers-value"
+    else if !flag "ind" then "violates copy-independent (changing or destroying one side changed the other)"
+    else if !ws.contains "live=0" then "violates freed-exactly-once (live PDU objects after destroying every copy)"
+    else "ok"
+
 /-- `assignraw a b`: copy assignment WITHOUT the well-formedness guard, executed literally on the pointer model
     (used only to reproduce the recorded finding that assigning from a layer the target owns reads destroyed storage) -/
 def stepAssignRaw (m : MState) (a b : Ref) : MState × String :=
@@ -115,6 +161,7 @@ def stepAssignRaw (m : MState) (a b : Ref) : MState × String :=
   | _, _ => showForest "illformed" m
 
 def step (m : MState) (line : String) : MState × String :=
+  if let some out := copyModel (words line) then (m, out) else
   if C12Opt.isStorageLine (words line) then
     let (p, out) := C12Opt.step m.pool line
     ({ m with pool := p }, out)
@@ -206,6 +253,9 @@ def nodup (l : List Nat) : Bool :=
   | x :: r => !(r.contains x) && nodup r
 
 def specStep (o : OState) (line : String) : OState × String :=
+  let opWs := words ((line.splitOn " ||| ").headD "")
+  if opWs.headD "" == "copyall" || opWs.headD "" == "copyclasses" then
+    (o, copySpec opWs (((line.trimAscii.toString.splitOn " ||| ").drop 1).headD "")) else
   if C12Opt.isStorageLine (words ((line.splitOn " ||| ").headD "")) then
     let (p, out) := C12Opt.specStep o.opt line
     ({ o with opt := p }, out)
